@@ -77,7 +77,7 @@ func init() {
 		PropCheck: "prop_bad_ids",
 		Gen:       c01Gen,
 		Run:       c01Run,
-		Rule:      "groups (key, hasher, message) with a list of candidate signature strings: the valid one, single-bit flips, negation, s+T for cofactor-torsion T (random and small order), s+delta with delta in G1, x>=p, all flag combinations, infinity variants, other message/key/tag, lengths 0..200; keys 1, 2, r-1, generated, decoded, aggregated (incl. sums to 0) and the identity public key; KMAC and fixed-output hashers (halves all-0xff, >= p, equal halves, halves congruent mod p, a half 0 or a multiple of p, SSWU exceptional u with Z u^2 = -1, u1 = -u0); every group carries the 128-byte hasher output and the model map_to_G1 of it is compared with H(m) (for KMAC the output itself is recomputed from tag and message); nil and wrong-size hashers (sizes 0, 1, 64, 127, 129, 255, 256, 1024), each also together with every other defect of the call (nil / empty / 47- / 49- / 96-byte, valid and identity signature, identity key from the constant and from the decoder; nil, empty and long message for Sign): the typed hasher error must win (judged by the runner); the verifying key OBJECT through every route (PublicKey(), DecodePublicKey, DecodePublicKeyCompressed, aggregation of one key / with identity keys / of two halves of the scalar, RemoveBLSPublicKeys from an aggregate and of identity keys, re-decoded private key) for generated, r-1 and aggregated keys, each must encode and behave like PublicKey(); empty, 420-byte, multi-byte/NUL tags, nil and empty messages, message lengths around the KMAC rate, a hasher object with pending written bytes; every group also offers the nil signature and the valid signature a second time after the rejected ones; runner-side: Sign repeatable and its earlier result unchanged, message, candidate bytes and hasher streaming state unmodified. distinct by the full group; non-trivial if at least one candidate has the right length; limb-sparse private scalars (zero low 64 / 128 / 192 bits, one non-zero limb) decoded and as the sum of two ordinary keys",
+		Rule:      "groups (key, hasher, message) with a list of candidate signature strings: the valid one, single-bit flips, negation, s+T for cofactor-torsion T (random and small order), s+delta with delta in G1, x>=p, all flag combinations, infinity variants, other message/key/tag, lengths 0..200; keys 1, 2, r-1, generated, decoded, aggregated (incl. sums to 0) and the identity public key; KMAC and fixed-output hashers (halves all-0xff, >= p, equal halves, halves congruent mod p, a half 0 or a multiple of p, SSWU exceptional u with Z u^2 = -1, u1 = -u0); every group carries the 128-byte hasher output and the model map_to_G1 of it is compared with H(m) (for KMAC the output itself is recomputed from tag and message); nil and wrong-size hashers (sizes 0, 1, 64, 127, 129, 255, 256, 1024), each also together with every other defect of the call (nil / empty / 47- / 49- / 96-byte, valid and identity signature, identity key from the constant and from the decoder; nil, empty and long message for Sign): the typed hasher error must win (judged by the runner); the verifying key OBJECT through every route (PublicKey(), DecodePublicKey, DecodePublicKeyCompressed, aggregation of one key / with identity keys / of two halves of the scalar, RemoveBLSPublicKeys from an aggregate and of identity keys, re-decoded private key) for generated, r-1 and aggregated keys, each must encode and behave like PublicKey(); empty, 420-byte, multi-byte/NUL tags, nil and empty messages, message lengths around the KMAC rate, a hasher object with pending written bytes; every group also offers the nil signature and the valid signature a second time after the rejected ones; runner-side: Sign repeatable and its earlier result unchanged, message, candidate bytes and hasher streaming state unmodified. distinct by the full group; non-trivial if at least one candidate has the right length; limb-sparse private scalars (zero low 64 / 128 / 192 bits, one non-zero limb) decoded and as the sum of two ordinary keys; signatures with a tiny x coordinate (16 leading zero bits, found by a deterministic search at generation time) offered with x + p",
 		Shard:     3,
 	})
 }
